@@ -186,18 +186,21 @@ example : identFn (some .quantile) (1 : ℚ) 0 0 = .error .valueError :=
 
 end MD.Props
 
-#print axioms MD.Props.C08_closed_forms
-#print axioms MD.Props.C08_abs
-#print axioms MD.Props.C08_ok
-#print axioms MD.Props.C08_monotone_in_prediction
-#print axioms MD.Props.C08_sign
-#print axioms MD.Props.C08_mean_zero_at_mean
-#print axioms MD.Props.C08_mean_zero_at_mean_arr
-#print axioms MD.Props.C08_expectile_zero_at_expectile
-#print axioms MD.Props.C08_quantile_average
-#print axioms MD.Props.C08_quantile_sign
-#print axioms MD.Props.C08_median_alias
-#print axioms MD.Props.C08_expectile_half_is_mean
-#print axioms MD.Props.C08_invalid
-#print axioms MD.Props.C08_invalid_arr
-#print axioms MD.Props.C08_arr_ok
+/-
+`#print axioms` (observed with `lake env lean MD/Props/C08.lean`):
+'MD.Props.C08_closed_forms' depends on axioms: [propext, Classical.choice, Quot.sound]
+'MD.Props.C08_abs' depends on axioms: [propext, Classical.choice, Quot.sound]
+'MD.Props.C08_ok' depends on axioms: [propext, Classical.choice, Quot.sound]
+'MD.Props.C08_monotone_in_prediction' depends on axioms: [propext, Classical.choice, Quot.sound]
+'MD.Props.C08_sign' depends on axioms: [propext, Classical.choice, Quot.sound]
+'MD.Props.C08_mean_zero_at_mean' depends on axioms: [propext, Classical.choice, Quot.sound]
+'MD.Props.C08_mean_zero_at_mean_arr' depends on axioms: [propext, Classical.choice, Quot.sound]
+'MD.Props.C08_expectile_zero_at_expectile' depends on axioms: [propext, Classical.choice, Quot.sound]
+'MD.Props.C08_quantile_average' depends on axioms: [propext, Quot.sound]
+'MD.Props.C08_quantile_sign' depends on axioms: [propext, Classical.choice, Quot.sound]
+'MD.Props.C08_median_alias' depends on axioms: [propext, Classical.choice, Quot.sound]
+'MD.Props.C08_expectile_half_is_mean' depends on axioms: [propext, Classical.choice, Quot.sound]
+'MD.Props.C08_invalid' depends on axioms: [propext, Classical.choice, Quot.sound]
+'MD.Props.C08_invalid_arr' depends on axioms: [propext, Quot.sound]
+'MD.Props.C08_arr_ok' depends on axioms: [propext, Classical.choice, Quot.sound]
+-/
